@@ -784,7 +784,12 @@ class Tuple(ValueNode):
     def __setitem__(self, index, item):
         if not isinstance(item, NodeBase):
             item = Parameter(item)
+        _old_item = self._children[index]
         self._children[index] = item
+        item.add_parent(self)
+        if not any(_c is _old_item for _c in self._children):
+            _old_item.remove_parent(self)
+        self.mark_for_update()
 
     @property
     def nodes(self):
